@@ -4,6 +4,8 @@ import (
 	"fmt"
 	"go/types"
 	"strings"
+
+	"golang.org/x/tools/go/ssa"
 )
 
 // c03HalfCloser: which connection gets the half-close on behalf of the client's connection. halfCloser is evaluated
@@ -115,5 +117,112 @@ func c03HalfCloser(c *Ctx, r *Report, rule string) {
 			}
 		}
 		r.check(len(problems) == 0, rule, fnName, ch.name, c.pos(fn.Pos()), fmt.Sprintf("%d path(s)", len(paths)), strings.Join(dedup(problems), "; "))
+	}
+}
+
+// c03TeeBranch: a tee branch runs concurrently with the main chain over the same client connection. The half-close
+// of the client belongs to the main chain's relay ("when one side finishes, its peer gets the half-close; the other
+// direction keeps flowing"): a proxy in the branch that finishes first must not be able to shut down the client's
+// write side while the main relay still writes to it. halfCloser reaches the socket through CloseWrite itself or
+// through NetConn(), so the wrapper type the branch is given must offer neither; the wrapper the next handler is
+// given must still offer one of them (C03.R9 evaluates halfCloser on it).
+func c03TeeBranch(c *Ctx, r *Report, rule string) {
+	r.rule(rule, "tee: the connection handed to the concurrently running branch is wrapped in a type that offers neither CloseWrite nor NetConn() (a relay in the branch cannot half-close the client under the main chain's relay); the connection handed to the next handler is wrapped in one that does", 2)
+	fnName := "modules/l4tee.(*Handler).Handle"
+	fn := c.Fn(fnName)
+	if fn == nil {
+		r.bad(rule, fnName, "exists", "-", "function not found")
+		return
+	}
+	// the dynamic types wrapped by cx.Wrap(...) in Handle and its closures
+	wrapped := func(v ssa.Value) []types.Type {
+		var out []types.Type
+		for _, o := range origins(v, sliceOpts{}) {
+			call, ok := o.V.(*ssa.Call)
+			if !ok || calleeID(call) != "layer4.(*Connection).Wrap" || len(call.Call.Args) < 2 {
+				continue
+			}
+			if mi, ok := call.Call.Args[1].(*ssa.MakeInterface); ok {
+				out = append(out, mi.X.Type())
+			} else {
+				out = append(out, nil)
+			}
+		}
+		return out
+	}
+	offers := func(t types.Type) []string {
+		var has []string
+		for _, tt := range []types.Type{t, types.NewPointer(t)} {
+			ms := c.Prog.MethodSets.MethodSet(tt)
+			for _, m := range []string{"CloseWrite", "NetConn"} {
+				if ms.Lookup(nil, m) != nil {
+					has = append(has, m)
+				}
+			}
+		}
+		return dedup(has)
+	}
+	nBranch, nNext := 0, 0
+	var visit func(f *ssa.Function, inGo bool)
+	visit = func(f *ssa.Function, inGo bool) {
+		for _, b := range f.Blocks {
+			for _, in := range b.Instrs {
+				if g, ok := in.(*ssa.Go); ok {
+					if cl := closureOf(g.Call.Value); cl != nil {
+						visit(cl, true)
+					}
+					continue
+				}
+				ci, ok := in.(ssa.CallInstruction)
+				if !ok || !ci.Common().IsInvoke() && !strings.HasSuffix(calleeID(ci), ".Handle") {
+					continue
+				}
+				if ci.Common().Method == nil || ci.Common().Method.Name() != "Handle" && !strings.HasSuffix(calleeID(ci), ".Handle") {
+					continue
+				}
+				if len(ci.Common().Args) == 0 {
+					continue
+				}
+				arg := ci.Common().Args[0]
+				ts := wrapped(arg)
+				if f != fn {
+					// inside a closure the argument is a captured variable
+					ts = nil
+					for _, o := range origins(arg, sliceOpts{}) {
+						if call, ok := o.V.(*ssa.Call); ok && calleeID(call) == "layer4.(*Connection).Wrap" && len(call.Call.Args) >= 2 {
+							if mi, ok := call.Call.Args[1].(*ssa.MakeInterface); ok {
+								ts = append(ts, mi.X.Type())
+							} else {
+								ts = append(ts, nil)
+							}
+						}
+					}
+				}
+				if len(ts) == 0 {
+					r.bad(rule, fnName, "connection of "+c.ipos(ci), c.ipos(ci), "undecided: the connection handed on here is not the result of cx.Wrap(<wrapper value>)")
+					continue
+				}
+				for _, t := range ts {
+					if t == nil {
+						r.bad(rule, fnName, "connection of "+c.ipos(ci), c.ipos(ci), "undecided: the wrapper's type is not visible at cx.Wrap")
+						continue
+					}
+					has := offers(t)
+					if inGo {
+						nBranch++
+						r.check(len(has) == 0, rule, fnName, "branch gets "+typeStr(t), c.ipos(ci), "offers neither CloseWrite nor NetConn()",
+							"the wrapper handed to the concurrently running branch offers "+strings.Join(has, " and ")+": a relay in the branch that finishes first half-closes the client's socket while the main chain's relay is still writing to it (the client sees end-of-stream early, the rest of the main upstream's bytes are lost)")
+					} else {
+						nNext++
+						r.check(len(has) > 0, rule, fnName, "next handler gets "+typeStr(t), c.ipos(ci), "offers "+strings.Join(has, " and "),
+							"the wrapper handed to the next handler offers neither CloseWrite nor NetConn(): a relay behind the tee cannot half-close the client")
+					}
+				}
+			}
+		}
+	}
+	visit(fn, false)
+	if nBranch == 0 || nNext == 0 {
+		r.bad(rule, fnName, "instances", c.pos(fn.Pos()), fmt.Sprintf("undecided: %d branch and %d next hand-over(s) found, expected at least one each", nBranch, nNext))
 	}
 }
